@@ -206,8 +206,10 @@ impl C04 {
             if let Some(o) = res {
                 ctx.check(o.is_some() == accept, &format!("{}/fails-iff-leg-misses-node-list/value/any", api), || json!({"input": input(), "observed_some": o.is_some(), "expected_some": accept}));
                 if let (Some(sp), true) = (o, accept) {
-                    if let Some(p) = walk(ctx, api, "any", &sp, &input) {
-                        expect_equal(ctx, api, "discrete-with-given-legs", "any", &p, &want, &input);
+                    // the spider with these legs, up to a renumbering of its nodes (the interfaces are compared
+                    // position by position by the isomorphism search)
+                    if let Some(p) = expect_diagram(ctx, api, "discrete-with-given-legs", "any", &sp, &want, &input) {
+                        ctx.check(p.e.is_empty() && p.w.len() == w.len(), &format!("{}/discrete-over-the-given-nodes/value/any", api), || json!({"input": input(), "observed": show(&p)}));
                     }
                 }
             }
@@ -222,8 +224,20 @@ impl C04 {
             if let Some(o) = res {
                 ctx.check(o.is_some() == accept, &format!("{}/fails-iff-leg-misses-node-list/value/any", api), || json!({"input": input(), "observed_some": o.is_some(), "expected_some": accept}));
                 if let (Some(sp), true) = (o, accept) {
-                    ctx.count("wf:walked");
-                    ctx.check(from_lax_raw(&sp) == want.to_lax() && wf_lax(&sp).is_empty(), &format!("{}/discrete-with-given-legs/value/any", api), || json!({"input": input(), "observed": show_lax(&from_lax_raw(&sp))}));
+                    // a lax spider may be presented with pending unifications: judged after quotienting
+                    if let Some(pl) = walk_lax(ctx, api, "any", &sp, &input) {
+                        match pl.strict() {
+                            Ok((p, _)) => {
+                                let ty = p.src_type() == want.src_type() && p.tgt_type() == want.tgt_type() && p.e.is_empty() && pl.e.is_empty();
+                                if ctx.check(ty, &format!("{}/discrete-with-given-legs/value/any", api), || json!({"input": input(), "observed": show_lax(&pl)})) {
+                                    expect_iso(ctx, api, "discrete-with-given-legs", "any", &p, &want, &input);
+                                }
+                            }
+                            Err(_) => {
+                                ctx.check(false, &format!("{}/quotientable/value/any", api), || json!({"input": input(), "observed": show_lax(&pl)}));
+                            }
+                        }
+                    }
                 }
             }
         }
@@ -249,8 +263,16 @@ impl C04 {
                 ctx.check(lhs.is_some() == (sc == n), "lax::half_spider/fails-iff-leg-misses-node-list/value/any", || json!({"input": input(), "observed_some": lhs.is_some()}));
                 if let (Some(h), true) = (lhs, sc == n) {
                     if let Some(pl) = walk_lax(ctx, "lax::half_spider", "any", &h, &input) {
-                        ctx.check(pl.q.is_empty() && pl.e.is_empty(), "lax::half_spider/discrete/value/any", || json!({"input": input(), "observed": show_lax(&pl)}));
-                        expect_iso(ctx, "lax::half_spider", "is-spider-with-identity-leg-model", "any", &pl.forget_q(), &hwant, &input);
+                        match pl.strict() {
+                            Ok((p, _)) => {
+                                if ctx.check(pl.e.is_empty() && p.src_type() == hwant.src_type() && p.tgt_type() == hwant.tgt_type(), "lax::half_spider/discrete/value/any", || json!({"input": input(), "observed": show_lax(&pl)})) {
+                                    expect_iso(ctx, "lax::half_spider", "is-spider-with-identity-leg-model", "any", &p, &hwant, &input);
+                                }
+                            }
+                            Err(_) => {
+                                ctx.check(false, "lax::half_spider/quotientable/value/any", || json!({"input": input(), "observed": show_lax(&pl)}));
+                            }
+                        }
                     }
                 }
             }
@@ -348,13 +370,33 @@ impl C04 {
         // lax versions against the strict ones, after strictification
         let lx = lib(ctx, "lax::identity", "objects", &input, || L::identity(a.clone()));
         if let Some(lx) = lx {
-            ctx.count("wf:walked");
-            ctx.check(from_lax_raw(&lx) == POh::<u32, u64>::identity(a.clone()).to_lax() && wf_lax(&lx).is_empty(), "lax::identity/is-identity-cospan/value/objects", || json!({"input": input()}));
+            if let Some(pl) = walk_lax(ctx, "lax::identity", "objects", &lx, &input) {
+                match pl.strict() {
+                    Ok((p, _)) => {
+                        if ctx.check(pl.e.is_empty() && p.src_type() == a && p.tgt_type() == a, "lax::identity/is-identity-cospan/value/objects", || json!({"input": input(), "observed": show_lax(&pl)})) {
+                            expect_iso(ctx, "lax::identity", "is-identity-cospan", "objects", &p, &POh::identity(a.clone()), &input);
+                        }
+                    }
+                    Err(_) => {
+                        ctx.check(false, "lax::identity/quotientable/value/objects", || json!({"input": input()}));
+                    }
+                }
+            }
         }
         let lt = lib(ctx, "lax::twist", "objects", &input, || <L as SymmetricMonoidal>::twist(a.clone(), b.clone()));
         if let Some(lt) = lt {
             if let Some(pl) = walk_lax(ctx, "lax::twist", "objects", &lt, &input) {
-                expect_iso(ctx, "lax::twist", "is-the-symmetry", "objects", &pl.forget_q(), &POh::twist(&a, &b), &input);
+                match pl.strict() {
+                    Ok((p, _)) => {
+                        let m = POh::<u32, u64>::twist(&a, &b);
+                        if ctx.check(p.src_type() == m.src_type() && p.tgt_type() == m.tgt_type(), "lax::twist/type/value/objects", || json!({"input": input(), "observed": show(&p)})) {
+                            expect_iso(ctx, "lax::twist", "is-the-symmetry", "objects", &p, &m, &input);
+                        }
+                    }
+                    Err(_) => {
+                        ctx.check(false, "lax::twist/quotientable/value/objects", || json!({"input": input()}));
+                    }
+                }
             }
         }
         ctx.sample("structural", || input());
@@ -373,7 +415,7 @@ impl Monitor for C04 {
          equality, involution as raw equality, (f;g)+ = g+;f+ and (f|g)+ = f+|g+ up to isomorphism, strict and lax), (b) spider construction with leg codomains at |w|, |w|+1, |w|-1 \
          (None iff a leg does not land in the node list; strict inherent, Spider trait, lax), half_spider, (c) pairs of labelled cospans with matching boundary type, non-injective and \
          non-surjective legs, composed through the API and compared up to isomorphism with cospan composition on the plain model (strict and lax), result must be discrete, (d) \
-         identities and symmetries as spiders. non-trivial = fusion with a non-injective inner leg, a rejection, or a contravariance instance with >=1 hyperedge; distinct = hash of the instance. Also: half_spider (strict and lax) refuses exactly when the leg's codomain is not the node count and otherwise is the spider with an identity leg (compared with the model); the lax Spider trait; legs with an entry equal to the node count (also over an empty node list); strict dagger laws compared with the model."
+         identities and symmetries as spiders. non-trivial = fusion with a non-injective inner leg, a rejection, or a contravariance instance with >=1 hyperedge; distinct = hash of the instance. Also: half_spider (strict and lax) refuses exactly when the leg's codomain is not the node count and otherwise is the spider with an identity leg (compared with the model); the lax Spider trait; strict spiders are compared with the model up to a renumbering of their nodes (legs pinned by position), lax spiders / identities / symmetries after quotienting (they may be presented with pending unifications); legs with an entry equal to the node count (also over an empty node list); strict dagger laws compared with the model."
     }
     fn corpus_len(&self) -> u64 {
         8
